@@ -109,3 +109,7 @@ V('C04', 'rename-skips-exists-check', S, F + '_update_obj_name',
 ''', '', 'C04.R9', 'name_to_id[new_name]:exists-check')
 V('C04', 'lint-old-new-name-swapped', S, F + 'set_obj_field',
   'self._update_obj_name(obj_id, sclass, old_name, value)', 'self._update_obj_name(obj_id, sclass, value, old_name)', 'C04.R7', 'set_obj_field:_update_obj_name:roles')
+V('C04', 'diff-applied-to-scratch-schema', 'edb/schema/objtypes.py', 'edb.schema.objtypes.AlterObjectType._alter_finalize',
+  '                schema = diff.apply(schema, context)\n', '                schema = diff.apply(nschema, context)\n', 'C04.R10', '_alter_finalize:apply-threads-schema')
+V('C04', 'blocking-ref-by-name', 'edb/schema/properties.py', 'edb.schema.properties.Property.is_blocking_ref',
+  'return not self.is_endpoint_pointer(schema)', "return self.get_shortname(schema).name not in {'source', 'target'}", 'C04.R10', 'endpoints-by-descent')
